@@ -307,9 +307,7 @@ impl MValue {
             Kind::Simple(20) => MValue::Bool(false),
             Kind::Simple(21) => MValue::Bool(true),
             Kind::Simple(_) => MValue::Null,
-            Kind::Float(8, bits) => MValue::Float(*bits),
-            Kind::Float(4, bits) => MValue::Float((f32::from_bits(*bits as u32) as f64).to_bits()),
-            Kind::Float(_, _) => MValue::Float(0),
+            Kind::Float(w, bits) => MValue::Float(crate::refcbor::float_value(*w, *bits).to_bits()),
         }
     }
 
@@ -325,7 +323,11 @@ impl MValue {
             MValue::Tag(t, v) => Item::tag(*t, v.to_item()),
             MValue::Bool(b) => Item::bool(*b),
             MValue::Null => Item::null(),
-            MValue::Float(bits) => Item::new(Kind::Float(8, *bits)),
+            MValue::Float(bits) => {
+                // shortest form that holds the value exactly, as coset's CBOR layer writes it
+                let (w, b) = crate::refcbor::shortest_float(*bits);
+                Item::new(Kind::Float(w, b))
+            }
         }
     }
 }
@@ -438,7 +440,10 @@ impl MHeader {
             }
         }
         let bytes = crate::refcbor::encode(&self.to_item());
-        let mut h = match crate::refcbor::read_exact(&bytes).ok().and_then(|i| MHeader::from_item(&i)) {
+        let mut h = match crate::refcbor::read_exact(&bytes)
+            .ok()
+            .and_then(|i| MHeader::from_item(&i))
+        {
             Some(h) => h,
             None => self.clone(),
         };
@@ -1138,7 +1143,10 @@ impl MTimestamp {
     pub fn to_item(&self) -> Item {
         match self {
             MTimestamp::Whole(i) => Item::int(*i as i128),
-            MTimestamp::Frac(b) => Item::new(Kind::Float(8, *b)),
+            MTimestamp::Frac(b) => {
+                let (w, b) = crate::refcbor::shortest_float(*b);
+                Item::new(Kind::Float(w, b))
+            }
         }
     }
 }
@@ -1173,4 +1181,37 @@ impl MClaims {
         }
         Item::map(m)
     }
+}
+
+/// Reference construction of the structures of RFC 8152 sections 4.4, 6.3 and 5.3 from the wire
+/// bytes of the protected headers (retained bytes where a header has them).
+pub fn ref_sig_structure(
+    ctx: &str,
+    body: &MProtected,
+    sign: Option<&MProtected>,
+    aad: &[u8],
+    payload: &[u8],
+) -> Vec<u8> {
+    let mut a = vec![Item::text(ctx), body.to_item()];
+    if let Some(s) = sign {
+        a.push(s.to_item());
+    }
+    a.push(Item::bytes(aad));
+    a.push(Item::bytes(payload));
+    crate::refcbor::encode(&Item::array(a))
+}
+pub fn ref_mac_structure(ctx: &str, body: &MProtected, aad: &[u8], payload: &[u8]) -> Vec<u8> {
+    crate::refcbor::encode(&Item::array(vec![
+        Item::text(ctx),
+        body.to_item(),
+        Item::bytes(aad),
+        Item::bytes(payload),
+    ]))
+}
+pub fn ref_enc_structure(ctx: &str, body: &MProtected, aad: &[u8]) -> Vec<u8> {
+    crate::refcbor::encode(&Item::array(vec![
+        Item::text(ctx),
+        body.to_item(),
+        Item::bytes(aad),
+    ]))
 }
